@@ -4,7 +4,8 @@
                made after first access), stable (repeated access gives the same object), meta [i, a, topic, source_ok,
                accepts_own_class, rejects_other_class]
      unbound:  uses [use, obs]   every use of a signal through the class must raise UnboundSignal
-     weak:     rows [variant, dead]  the owner must be collectable                                                        *)
+     weak:     rows [variant, dead]  the owner must be collectable; the case "cycle" reuses the shape: dead = the attribute gave the
+               same bound signal before, during and after a complete subscribe / unsubscribe history                                                        *)
 EXTENDS Naturals, Sequences, TLC, TLCExt, Json, IOUtils
 Cases == JsonDeserialize(IOEnv.TRACE_FILE)
 VARIABLES i
@@ -28,7 +29,7 @@ Why(c) ==
        IF \E j \in DOMAIN c.uses : c.uses[j].obs # "UnboundSignal" THEN
             LET j == CHOOSE j \in DOMAIN c.uses : c.uses[j].obs # "UnboundSignal" IN "class-level-use-" \o c.uses[j].use \o "-gave-" \o c.uses[j].obs
        ELSE ""
-  ELSE IF \E j \in DOMAIN c.rows : ~c.rows[j].dead THEN "binding-keeps-the-owner-alive" ELSE ""
+  ELSE IF \E j \in DOMAIN c.rows : ~c.rows[j].dead THEN (IF c.id = "cycle" THEN "bound-signal-changes-across-a-subscription-cycle" ELSE "binding-keeps-the-owner-alive") ELSE ""
 Report == LET c == Cases[i] w == Why(c) IN
           PrintT(ToJson([end |-> c.id, ok |-> (w = ""), step |-> 1, why |-> w, hits |-> <<>>]))
 =============================================================================
